@@ -41,12 +41,26 @@ def prop(spec, rec):
         h.sim.start = h.sim.start.replace(tzinfo=timezone(timedelta(hours=spec["tz"])))
     sc.run_sim(h)
     sim = h.sim
+    labels_extra = set()
+    if spec.get("analyse", "direct") != "direct":
+        # "all completed simulations": also one that was saved after its run and loaded again
+        # (the documented way of keeping results), or deep-copied
+        import copy
+
+        with warnings.catch_warnings():
+            warnings.simplefilter("ignore")
+            if spec["analyse"] == "deepcopy":
+                sim = copy.deepcopy(sim)
+            else:
+                sim, _ = sc.json_roundtrip(sim, type(sim), spec["analyse"][5:])
+        h.evs = dict(sim.ev_history)
+        labels_extra.add("analysed_after_" + ("deepcopy" if spec["analyse"] == "deepcopy" else "json_reload"))
     R = np.array(sim.charging_rates, dtype=float)
     n, T = R.shape
     ids = m.station_ids
     V = [s["voltage"] for s in spec["stations"]]
     PH = [s["phase"] for s in spec["stations"]]
-    labels = sc.scenario_labels(spec)
+    labels = sc.scenario_labels(spec) | labels_extra
 
     agg = acnsim.aggregate_current(sim)
     want = [math.fsum(R[i, t] for i in range(n)) for t in range(T)]
@@ -160,6 +174,7 @@ def cases(draw):
         spec["requested"], spec["phase_ids"] = [], []
     spec["threshold"] = draw(st.sampled_from([0.1, 0.001, 1.0, 5.0, 0.0, 0.0, -0.05]))
     spec["tz"] = draw(st.sampled_from([None, None, -8, 5.5]))
+    spec["analyse"] = draw(st.sampled_from(["direct", "direct", "json_string", "json_path", "json_buffer", "deepcopy"]))
     if draw(st.integers(0, 3)) == 0:
         # a single-phase site: every station on the same angle (mixed-sign coefficients stay)
         ph = draw(st.sampled_from([0.0, 30.0, -90.0, 180.0]))
@@ -176,7 +191,7 @@ def subchecks(tier):
             prop,
             quick=300,
             thorough=20000,
-            floors={"requested_not_in_network_order": 0.1, "mixed_voltage": 0.3, "nonzero_rates": 0.4, "unbalance_checked": 0.05, "fractional_period": 0.04, "single_phase_mixed_sign_constraint": 0.015, "same_instant_other_zone": 0.2},
+            floors={"requested_not_in_network_order": 0.1, "mixed_voltage": 0.3, "nonzero_rates": 0.4, "unbalance_checked": 0.05, "fractional_period": 0.04, "single_phase_mixed_sign_constraint": 0.015, "same_instant_other_zone": 0.2, "analysed_after_json_reload": 0.2},
         )
     ]
 
